@@ -70,7 +70,7 @@ package gff
 //@   property C02
 //@   requires w != nil && w.w != nil && f != nil && w.Width > 0
 //@   requires (typeis(f, *Feature) || typeis(f, *Region)) ==> ref(f) != 0
-//@   ensures [bytes] err == nil ==> n == emitted(w.w) - old(emitted(w.w))
+//@   ensures [bytes] n == emitted(w.w) - old(emitted(w.w))
 //@   ensures [rejects-only-empty] !w.header ==> startOf(f) >= endOf(f) && n == 0 && emitted(w.w) == old(emitted(w.w))
 //@   ensures [rejects-empty] startOf(f) >= endOf(f) ==> err != nil && n == 0 && w.header == old(w.header)
 //@   assigns w.header, emitted(w.w), fresh
@@ -79,12 +79,12 @@ package gff
 //@   property C02
 //@   requires w != nil && w.w != nil && w.Width > 0
 //@   requires (typeis(d, *Feature) || typeis(d, *Region)) ==> ref(d) != 0
-//@   ensures [bytes] err == nil ==> n == emitted(w.w) - old(emitted(w.w))
+//@   ensures [bytes] n == emitted(w.w) - old(emitted(w.w))
 
 //@ func (*Writer).WriteComment
 //@   property C02
 //@   requires w != nil && w.w != nil
-//@   ensures [bytes] err == nil ==> n == emitted(w.w) - old(emitted(w.w))
+//@   ensures [bytes] n == emitted(w.w) - old(emitted(w.w))
 
 // ---- frame column (C02): what the writer prints is what the reader parses back ----
 //@ func (Frame).String
